@@ -42,7 +42,9 @@ Record st := mkSt {
   m : option Z;                (* m, default from _m_default  None = not materialised *)
   p : Z;                       (* backing store of Property p (user getter/setter) *)
   c : option Z;                (* cache of cached_property c observing x       *)
-  ad : Z                       (* ad = Supports(IProto)       stored adapted value atom *)
+  ad : Z;                      (* ad = Supports(IProto)       stored adapted value atom *)
+  y : option Z;                (* y = V() with a _y_default method and a static handler; None = not materialised *)
+  ad2 : Z                      (* ad2 = Instance(IProto, adapt="default"): -1 = the default None *)
 }.
 
 Inductive op :=
@@ -53,7 +55,11 @@ Inductive op :=
 | DAssign (kvs : list (Z * Z)) | DSetItem (k v : Z) | DUpdate (kvs : list (Z * Z)) | DSetDefault (k v : Z)
 | SAssign (vs : list Z) | SAdd (v : Z) | SUpdate (vs : list Z)
 | ReadF | ReadM | ReadP | SetP (v : Z) | ReadC
-| SetAd (chain : nat) (v : Z).             (* assign an object needing [chain] adapter factories (0 = provides) *)
+| SetAd (chain : nat) (v : Z)              (* assign an object needing [chain] adapter factories (0 = provides) *)
+| SIxor (vs : list Z) | SSymDiff (vs : list Z)   (* s ^= set(vs) / s.symmetric_difference_update(vs); the members that are
+                                              not in s come first, in the order the validator is called on them *)
+| SetY (v : Z) | ReadY
+| SetAd2 (chain : option nat) (v : Z).     (* adapt="default": None = no adaptation path, the default (None) is stored *)
 
 (* handler identities *)
 Definition H_x_static := 0%nat.     (* _x_changed *)
@@ -61,6 +67,7 @@ Definition H_x_dynamic := 1%nat.    (* on_trait_change(h, 'x') *)
 Definition H_x_observe := 2%nat.    (* observe(h, 'x') *)
 Definition H_l_static := 3%nat.     (* _l_items_changed *)
 Definition H_l_observe := 4%nat.    (* observe(h, 'l:items') *)
+Definition H_y_static := 5%nat.     (* _y_changed *)
 
 Definition logent := (nat * Z * Z)%type.
 
@@ -82,6 +89,7 @@ Section WithCallbacks.
   Variable fac_value : Z.                (* what the default factory returns *)
   Variable mdef_value : Z.               (* what _m_default returns *)
   Variable adapt_value : nat -> Z -> Z.  (* the adapter produced by a chain of that length *)
+  Variable ydef_value : Z.               (* what _y_default returns *)
 
   (* one invocation of the validator as the n-th deciding callback *)
   Definition call_vld (pl : plan) (n : nat) (v : Z) : res Z :=
@@ -129,16 +137,18 @@ Section WithCallbacks.
   Definition run_handlers (pl : plan) (hs : list nat) (a b : Z) : list logent :=
     map (fun j => (j, a, b)) (filter (fun j => negb (handler_fault pl j)) hs).
 
-  Definition set_x v s0 := mkSt v (t s0) (l s0) (d s0) (s s0) (f s0) (m s0) (p s0) (c s0) (ad s0).
-  Definition set_t v s0 := mkSt (x s0) v (l s0) (d s0) (s s0) (f s0) (m s0) (p s0) (c s0) (ad s0).
-  Definition set_l v s0 := mkSt (x s0) (t s0) v (d s0) (s s0) (f s0) (m s0) (p s0) (c s0) (ad s0).
-  Definition set_d v s0 := mkSt (x s0) (t s0) (l s0) v (s s0) (f s0) (m s0) (p s0) (c s0) (ad s0).
-  Definition set_s v s0 := mkSt (x s0) (t s0) (l s0) (d s0) v (f s0) (m s0) (p s0) (c s0) (ad s0).
-  Definition set_f v s0 := mkSt (x s0) (t s0) (l s0) (d s0) (s s0) v (m s0) (p s0) (c s0) (ad s0).
-  Definition set_m v s0 := mkSt (x s0) (t s0) (l s0) (d s0) (s s0) (f s0) v (p s0) (c s0) (ad s0).
-  Definition set_p v s0 := mkSt (x s0) (t s0) (l s0) (d s0) (s s0) (f s0) (m s0) v (c s0) (ad s0).
-  Definition set_c v s0 := mkSt (x s0) (t s0) (l s0) (d s0) (s s0) (f s0) (m s0) (p s0) v (ad s0).
-  Definition set_ad v s0 := mkSt (x s0) (t s0) (l s0) (d s0) (s s0) (f s0) (m s0) (p s0) (c s0) v.
+  Definition set_x v s0 := mkSt v (t s0) (l s0) (d s0) (s s0) (f s0) (m s0) (p s0) (c s0) (ad s0) (y s0) (ad2 s0).
+  Definition set_t v s0 := mkSt (x s0) v (l s0) (d s0) (s s0) (f s0) (m s0) (p s0) (c s0) (ad s0) (y s0) (ad2 s0).
+  Definition set_l v s0 := mkSt (x s0) (t s0) v (d s0) (s s0) (f s0) (m s0) (p s0) (c s0) (ad s0) (y s0) (ad2 s0).
+  Definition set_d v s0 := mkSt (x s0) (t s0) (l s0) v (s s0) (f s0) (m s0) (p s0) (c s0) (ad s0) (y s0) (ad2 s0).
+  Definition set_s v s0 := mkSt (x s0) (t s0) (l s0) (d s0) v (f s0) (m s0) (p s0) (c s0) (ad s0) (y s0) (ad2 s0).
+  Definition set_f v s0 := mkSt (x s0) (t s0) (l s0) (d s0) (s s0) v (m s0) (p s0) (c s0) (ad s0) (y s0) (ad2 s0).
+  Definition set_m v s0 := mkSt (x s0) (t s0) (l s0) (d s0) (s s0) (f s0) v (p s0) (c s0) (ad s0) (y s0) (ad2 s0).
+  Definition set_p v s0 := mkSt (x s0) (t s0) (l s0) (d s0) (s s0) (f s0) (m s0) v (c s0) (ad s0) (y s0) (ad2 s0).
+  Definition set_c v s0 := mkSt (x s0) (t s0) (l s0) (d s0) (s s0) (f s0) (m s0) (p s0) v (ad s0) (y s0) (ad2 s0).
+  Definition set_ad v s0 := mkSt (x s0) (t s0) (l s0) (d s0) (s s0) (f s0) (m s0) (p s0) (c s0) v (y s0) (ad2 s0).
+  Definition set_y v s0 := mkSt (x s0) (t s0) (l s0) (d s0) (s s0) (f s0) (m s0) (p s0) (c s0) (ad s0) v (ad2 s0).
+  Definition set_ad2 v s0 := mkSt (x s0) (t s0) (l s0) (d s0) (s s0) (f s0) (m s0) (p s0) (c s0) (ad s0) (y s0) v.
 
   Definition raise (e : exn) (s0 : st) : st * outcome * list logent := (s0, Raise e, []).
   Definition done (s1 : st) (lg : list logent) : st * outcome * list logent := (s1, Ok, lg).
@@ -248,6 +258,52 @@ Section WithCallbacks.
         | Some e => raise e s0
         | None => done (set_ad (adapt_value chain v) s0) []
         end
+    | SIxor vs | SSymDiff vs =>                  (* trait_set_object.py __ixor__ / symmetric_difference_update *)
+        let removed := inter (s s0) vs in
+        match vld_items pl 0 (diff vs removed) with
+        | RRaise e => raise e s0
+        | ROk va => done (set_s (union (diff (s s0) removed) (diff va (s s0))) s0) []
+        end
+    | SetY v =>                                   (* setattr_trait: validate, then the old value (the default is
+                                                    computed and stored when the attribute is not materialised),
+                                                    then store, then notifiers *)
+        match call_vld pl 0 v with
+        | RRaise e => raise e s0
+        | ROk v' =>
+            match y s0 with
+            | Some old => if Z.eqb v' old then done s0 []
+                          else done (set_y (Some v') s0) (run_handlers pl [H_y_static] old v')
+            | None =>
+                match call_plain pl 1 with
+                | Some e => raise e s0
+                | None =>
+                    match call_vld pl 2 ydef_value with          (* the computed default is validated too *)
+                    | RRaise e => raise e s0
+                    | ROk dv => if Z.eqb v' dv then done (set_y (Some v') s0) []
+                                else done (set_y (Some v') s0) (run_handlers pl [H_y_static] dv v')
+                    end
+                end
+            end
+        end
+    | ReadY =>
+        match y s0 with
+        | Some _ => done s0 []
+        | None => match call_plain pl 0 with
+                  | Some e => raise e s0
+                  | None => match call_vld pl 1 ydef_value with
+                            | RRaise e => raise e s0
+                            | ROk dv => done (set_y (Some dv) s0) []
+                            end
+                  end
+        end
+    | SetAd2 chain v =>
+        match chain with
+        | None => done (set_ad2 (-1) s0) []
+        | Some n => match call_chain pl 0 n with
+                    | Some e => raise e s0
+                    | None => done (set_ad2 (adapt_value n v) s0) []
+                    end
+        end
     end.
 
   (* Is the fault of the plan reached by this operation from this state?  A deciding fault is
@@ -263,17 +319,5 @@ Section WithCallbacks.
         let '(_, _, lg) := step NoFault s0 o in existsb (fun e => Nat.eqb (fst (fst e)) j) lg
     end.
 
-  (* (kept for reference) Is the fault of the plan reached by this operation from this state?
-     (used by the twin rule: the twin skips an operation whose deciding callback was made to fail) *)
   Definition is_raise (o : outcome) : bool := match o with Raise _ => true | Ok => false end.
-
-  (* The fault-free twin of DESIGN §6 C19: it does not execute an operation that the
-     injected fault made fail, and executes every other operation without fault. *)
-  Definition twin_step (pl : plan) (tw : st) (o : op) (faulted_out : outcome) : st :=
-    match pl with
-    | FaultCall _ _ =>
-        let '(tw', out', _) := step NoFault tw o in
-        if is_raise faulted_out && negb (is_raise out') then tw else tw'
-    | _ => let '(tw', _, _) := step NoFault tw o in tw'
-    end.
 End WithCallbacks.
